@@ -38,6 +38,11 @@ def discharge(F, inst, ev, kind):
             return r3, d3
         if d3:
             detail = "%s; %s" % (detail, d3)
+        r4, d4 = discharge_const_region(F, inst, ev, kind)
+        if r4 is not None:
+            return r4, d4
+        if d4:
+            detail = "%s; %s" % (detail, d4)
     return rule, detail
 
 
@@ -183,6 +188,63 @@ def discharge_concrete(F, inst, ev, kind):
         if all(rng[0] <= v <= rng[1] for v in vals):
             return "B-concrete", "results %s on all %d evaluations, within %s" % (sorted(set(vals))[:6], len(vals), ty)
     return None, "arithmetic whose operands are not literals on every evaluation"
+
+
+def const_range(F, idx, n):
+    """(lo, hi exclusive) of a range expression with literal / named-constant bounds, on an array of n elements"""
+    idx = H.strip_block(idx)
+    if idx.get("k") == "struct":
+        name = (idx.get("res") or {}).get("path", "").split("::")[-1]
+        f = {x["name"]: x["e"] for x in idx.get("fields", [])}
+        lo = _const_int(F, f["start"]) if "start" in f else 0
+        hi = _const_int(F, f["end"]) if "end" in f else n
+        if name == "RangeFull":
+            return 0, n
+        if lo is None or hi is None:
+            return None
+        if name in ("RangeInclusive", "RangeToInclusive"):
+            hi += 1
+        return lo, hi
+    if idx.get("k") == "call" and (idx.get("callee") or "").endswith("RangeInclusive::<Idx>::new") and len(idx.get("args", [])) == 2:
+        lo, hi = _const_int(F, idx["args"][0]), _const_int(F, idx["args"][1])
+        return None if lo is None or hi is None else (lo, hi + 1)
+    return None
+
+
+def array_len_of(ty):
+    m = re.search(r"\[[^;\[\]]+; (\d+)\]$", (ty or "").strip())
+    return int(m.group(1)) if m else None
+
+
+def discharge_const_region(F, inst, ev, kind):
+    """B-const-range: `A[a..b]` on an array `[T; N]` with constant 0 <= a <= b <= N;
+    B-copy-len: `A[a..b].copy_from_slice(src)` with src: &[T; M] and M == b - a"""
+    fn = hir_fn_for(F, inst)
+    if fn is None:
+        return None, ""
+    if kind in ("call:core::ops::index::Index::index", "call:core::ops::index::IndexMut::index_mut"):
+        at = nodes_covering(fn, ev["sp"], ("index",))[:1]
+        if len(at) == 1:
+            n = array_len_of(at[0].get("base_ty"))
+            r = const_range(F, at[0]["idx"], n) if n is not None else None
+            if r is not None and 0 <= r[0] <= r[1] <= n:
+                return "B-const-range", "constant range %d..%d of an array of %d elements" % (r[0], r[1], n)
+        return None, ""
+    if kind == "call:core::slice::<impl [T]>::copy_from_slice":
+        nodes = [x for x in node_at(fn, ev["sp"]) if x.get("k") == "mcall" and (x.get("callee") or "").endswith("::copy_from_slice")]
+        if len(nodes) == 1:
+            dst = H.strip(nodes[0]["recv"])
+            src = nodes[0]["args"][0] if nodes[0].get("args") else {}
+            if dst.get("k") == "index":
+                n = array_len_of(dst.get("base_ty"))
+                r = const_range(F, dst["idx"], n) if n is not None else None
+                m = array_len_of(src.get("ty")) or array_len_of((H.strip(src) or {}).get("ty"))
+                if r is not None and m is not None and 0 <= r[0] <= r[1] <= n:
+                    if r[1] - r[0] == m:
+                        return "B-copy-len", "destination %d..%d and source [_; %d] have the same length" % (r[0], r[1], m)
+                    return None, "copy_from_slice of %d elements into a region of %d: the lengths differ (panics)" % (m, r[1] - r[0])
+        return None, ""
+    return None, ""
 
 
 def interval(t, ptypes):
